@@ -88,3 +88,22 @@ Theorem C20_export_access_refuted :
     value_of L st (SMod Possibility (SMod Possibility (SAtom 0))) 0 = Val VF.
 Proof. exact export_access_refuted. Qed.
 Print Assumptions C20_export_access_refuted.
+
+(* the hypotheses of export_faithful hold after every history of API calls; and unless the
+   logic's access class is SerialAccess the exported access relation is exactly R *)
+From PT Require Import Sem.ModelRun Sem.ReachProofs.
+Theorem C20_export_faithful_history L cord pord os st :
+  vals_closed L = true -> (ml_classical L = true -> val_ok L VT = true) ->
+  forallb (op_ok L) os = true ->
+  (forall st0, apply_ops L init_state os = Some st0 -> forall c, In c cord -> In c (s_consts st0)) ->
+  run L cord pord os = Some st ->
+  state_wfb L st = true /\ s_finished st = true /\
+  (ml_modal L = true -> ml_access L <> AKSerial ->
+   forall a b, In (a, b) (x_access (export L st)) <-> In (a, b) (ap (s_R st))).
+Proof.
+  intros VC CT OK Hc Hr.
+  destruct (run_wf L cord pord os st VC CT OK Hc Hr) as [WF [AW [F Sub]]].
+  split; [exact WF|]. split; [exact F|].
+  intros M NS. apply (export_access_exact L st M AW (Sub NS)).
+Qed.
+Print Assumptions C20_export_faithful_history.
